@@ -1,4 +1,5 @@
 from datetime import datetime
+from io import BytesIO
 from pathlib import Path
 from typing import IO, List, Optional, Type, Union
 
@@ -370,6 +371,18 @@ class Tdf:
         except StopIteration:
             raise ValueError(f"Block limit reached ({len(self.entries)})")
 
+        # all the slots after the first unused one must be unused too
+        if any(
+            entry.type != BlockType.unusedSlot
+            for entry in self.entries[unusedBlockPos + 1 :]
+        ):
+            raise IOError("All unused slots must be at the end of the file")
+
+        # encode the block before touching the file or the table, so that a
+        # block that can't be encoded leaves the file as it was
+        blockBuffer = BytesIO()
+        newBlock._write(blockBuffer)
+
         # write new entry with the offset of that unused slot
         new_entry = TdfEntry(
             type=newBlock.type,
@@ -382,12 +395,16 @@ class Tdf:
             comment=comment,
         )
 
+        # same for the entry (the comment may be too long or not encodable)
+        entryBuffer = BytesIO()
+        new_entry._write(entryBuffer)
+
         # replace the entry
         self.entries[unusedBlockPos] = new_entry
 
         # write new entry
         self.handler.seek(64 + 288 * unusedBlockPos, 0)
-        new_entry._write(self.handler)
+        self.handler.write(entryBuffer.getvalue())
 
         # update all unused slots's offset
         for n, entry in enumerate(
@@ -402,7 +419,7 @@ class Tdf:
 
         # write new block
         self.handler.seek(new_entry.offset, 0)
-        newBlock._write(self.handler)
+        self.handler.write(blockBuffer.getvalue())
 
         # ensure the file is the correct size
         # and that the changes are written to disk
